@@ -160,7 +160,7 @@ def report(prop, tier, seed, t0, contracts, results, lemma_recs, validations, sp
         if r["cover"] != "sat" and not r["error"]:
             checker_errors.append(f"precondition of {r['contract']} case {r['case']} is not satisfiable ({r['cover']})")
         c = reg[r["contract"]]
-        if not r["error"] and len(r["obligations"]) < c.floor:
+        if not r["error"] and not r.get("skipped") and len(r["obligations"]) < c.floor:
             checker_errors.append(f"{r['contract']} case {r['case']}: {len(r['obligations'])} obligations < floor {c.floor}")
     for r in errors:
         checker_errors.append(f"{r['contract']} case {r['case']}: {r['error'][:600]}")
@@ -201,7 +201,9 @@ def report(prop, tier, seed, t0, contracts, results, lemma_recs, validations, sp
             rp["replay_verdict"] = verdict
             rp["replay_detail"] = detail
             return verdict == "violates"
-        if n_replayed < MAX_REPLAYS or k is not None:
+        opaque_candidate = bool(o.get("smt2")) and any(f in o["smt2"] for f in ("OM", "DIM", "ORD3"))
+        if n_replayed < MAX_REPLAYS or k is not None or opaque_candidate:
+            # (a model found with opaque calendar functions is only a candidate: it is always refined, whatever the replay budget)
             n_replayed += 1
             try:
                 if o.get("call"):
@@ -209,7 +211,7 @@ def report(prop, tier, seed, t0, contracts, results, lemma_recs, validations, sp
                 if not confirmed and o.get("smt2") and any(f in o["smt2"] for f in ("OM", "DIM", "ORD3")):
                     # counterexample refinement (DESIGN 2.8): the model was found with opaque spec functions and is
                     # only a candidate; re-solve the VC with every definition revealed
-                    v2, m2 = RP.resolve_with_definitions(o["smt2"], timeout_ms=20000 if tier == "quick" else 300000)
+                    v2, m2 = RP.resolve_with_definitions(o["smt2"], timeout_ms=60000 if tier == "quick" else 300000)
                     rp["refined"] = v2
                     if v2 == "proved":
                         o["verdict"] = "proved"
@@ -218,7 +220,9 @@ def report(prop, tier, seed, t0, contracts, results, lemma_recs, validations, sp
                         rp["note"] = "candidate model was spurious: VC valid once spec definitions are revealed"
                         json.dump(rp, open(path, "w"), indent=1)
                         continue
-                    if v2 == "unknown" and not o.get("call"):
+                    if v2 == "unknown":
+                        # a candidate found with opaque spec functions that neither replays natively nor is settled with the definitions
+                        # revealed is undecided, not a violation
                         o["verdict"] = "unknown"
                     if v2 == "failed" and m2 is not None:
                         from pyvc.contract import model_eval, model_summary
@@ -493,7 +497,8 @@ def report(prop, tier, seed, t0, contracts, results, lemma_recs, validations, sp
             "bounded_standins": spec.get("bounded", []) + standin_results,
             "self_test_on_recorded_changes": self_test,
             "probe_validation": probe_validation,
-            "not_decided": spec.get("not_decided", []),
+            "not_decided": spec.get("not_decided", []) + [f"{r['contract']} case {r['case']}: not applicable to the code as it is ({r['skipped']}); the contract's other cases run"
+                                                        for r in results if r.get("skipped")],
             "known_finding_obligations": [f"{o['contract']}::{o['case']}::{o['name']}" for _, o in known_hits],
             "failed": [f"{o['contract']}::{o['case']}::{o['name']}" for o, _, _ in violations],
             "undecided": [f"{o['contract']}::{o['case']}::{o['name']}" for o in unknown],
